@@ -320,6 +320,63 @@ def h4_inline(n=2, timeout=150, part=None, **kw):
                          int_lo=-16, int_hi=1023)
 
 
+# ------------------------------------------------------------------------------------------------ H5 long inline image data (end marker at and around the read-buffer boundaries)
+INLINE_LONG_PATTERNS = [("zeros", b"\x00"), ("text", b"abcdefgh"), ("E", b"E"), ("EX", b"EX"), ("EIx", b"EIx"), ("E-newline", b"E\n"), ("I", b"I"), ("spaces", b" "), ("newline-E-I-x", b"\nEIx")]
+INLINE_LONG_SIZES = list(range(4088, 4104)) + list(range(8184, 8200)) + [12288, 70000]
+
+
+def inline_long_case(pi, size, eol):
+    unit = INLINE_LONG_PATTERNS[pi][1]
+    data = (unit * (size // len(unit) + 1))[:size]
+    while data and (data[-1:] in (b"E", b"\r") or data[-2:] == b"EI"):          # the data must not end in the beginning of an end marker (same exclusion as H4)
+        data = data[:-1] + b"x"
+    content = b"BI /W 1 /H 1 /BPC 8 /CS /G ID " + data + eol + b"EI\n 7 Tc (x) Tj"
+    return content, data
+
+
+def inline_long_check(pi, size, eol):
+    import pdfminer.pdfinterp as pi_
+    import pdfminer.pdftypes as pt
+    import pdfminer.psparser as ps
+    content, data = inline_long_case(pi, size, eol)
+    desc = "inline image with %d bytes of %r (%s before EI)" % (len(data), INLINE_LONG_PATTERNS[pi][0], "LF" if eol == b"\n" else "CR LF")
+    p = pi_.PDFContentParser([pt.PDFStream({}, content)])
+    objs = []
+    try:
+        while True:
+            objs.append(p.nextobject()[1])
+    except ps.PSEOF:
+        pass
+    except Exception as e:
+        return "%s: the content parser raised %s: %s" % (desc, type(e).__name__, str(e)[:150])
+    if not objs or not isinstance(objs[0], pt.PDFStream):
+        return "%s: no inline image, %d objects" % (desc, len(objs))
+    if objs[0].rawdata != data:
+        got = objs[0].rawdata
+        k = next((i for i in range(min(len(got), len(data))) if got[i] != data[i]), min(len(got), len(data)))
+        return "%s: captured %d bytes, first difference at byte %d" % (desc, len(got), k)
+    rest = objs[1:]
+    ok = len(rest) == 5 and rest[0] is pi_.PDFContentParser.KEYWORD_EI and rest[1] == 7 and rest[2] is ps.KWD(b"Tc") and rest[3] == b"x" and rest[4] is ps.KWD(b"Tj")
+    return None if ok else "%s: the operators after the image read as %r" % (desc, rest[:6])
+
+
+def h5_inline_long(timeout=300, part=None, **kw):
+    """inline image data of 4088 .. 70000 bytes in nine patterns (runs of E, I, EIx, E-newline ..): the end marker lands at and around every read-buffer boundary - concrete runs by symbolic choice"""
+    import pdfminer.pdfinterp as pi_
+
+    def fn(ex):
+        pi = ex.choice(len(INLINE_LONG_PATTERNS), "pattern")
+        si = ex.choice(len(INLINE_LONG_SIZES), "size")
+        eol = [b"\n", b"\r\n"][ex.choice(2, "eol")]
+        r = inline_long_check(pi, INLINE_LONG_SIZES[si], eol)
+        ex.require(r is None, r or "", pi=pi, size=INLINE_LONG_SIZES[si], crlf=(eol != b"\n"))
+
+    def conc(m, info):
+        return {"long": True, "pi": info["pi"], "size": info["size"], "crlf": info["crlf"]}
+    return core.run_symx("H4_inline", fn, [pi_.PDFContentParser.get_inline_data, pi_.PDFContentParser.fillbuf], {"patterns": [p[0] for p in INLINE_LONG_PATTERNS], "sizes": "4088..4103, 8184..8199, 12288, 70000", "eol": "LF / CR LF"},
+                         timeout, concretize=conc, part=part)
+
+
 # ------------------------------------------------------------------------------------------------ replay
 def replay(harness, inp):
     import pdfminer.image as im
@@ -381,6 +438,8 @@ def replay(harness, inp):
             return None
         finally:
             shutil.rmtree(d, ignore_errors=True)
+    if harness == "H4_inline" and inp.get("long"):
+        return inline_long_check(inp["pi"], inp["size"], b"\r\n" if inp["crlf"] else b"\n")
     if harness == "H4_inline":
         import pdfminer.pdfinterp as pi
         import pdfminer.pdftypes as pt
@@ -414,7 +473,7 @@ GEOMS_Q = [(1, 1, 24), (2, 2, 24), (3, 1, 24), (1, 1, 8), (3, 2, 8), (5, 1, 8), 
 
 
 def jobs(tier):
-    J = [Job("H2_format", "h2_format", {}, 100)]
+    J = [Job("H2_format", "h2_format", {}, 100)] + [Job("H5_inline_long:%d" % k, "h5_inline_long", {"part": [k, 4, 5]}, 300, "H4_inline") for k in range(4)]
     geoms = [(w, h, b) for b in (24, 8, 1) for w in (1, 2, 3, 4, 5, 7, 8, 9) for h in (1, 2, 3)]
     if tier == "thorough":
         geoms += [(w, h, b) for b in (24, 8, 1) for w in (15, 16, 17, 33) for h in (1, 4)]
